@@ -16,6 +16,9 @@ const PATH_PARTS: &[&str] = &[
     "\"quoted\" title.txt", "end quote\"", "\"start q", "\"", "\"\"", "a \"b\" c", "\" \"",
 ];
 const HASHES: &[&str] = &["0123456789abcdef", "aaaaaaaaaaaaaaaa", "abc1234", "deadbeefdeadbeef", "ffffffffffffffff", "0000000"];
+// "any hash strings": everything that is one whitespace-free word (the entry line is `  <hash> <ranges>`)
+const ODD_HASHES: &[&str] = &["h", "HUMAN", "human", "1-2", "1,2", "12", "-", "--", "---", "a-b,c", "\"q\"", "é中", "0123456789abcdef0123456789abcdef0123456789abcdef0123456789abcdef",
+    "{}", "a:b", "x/y", "#", "\\", "'", "🙂", "0"];
 
 fn gen_path(rng: &mut Rng, allowed: &dyn Fn(&str) -> bool) -> String {
     for _ in 0..50 {
@@ -52,6 +55,25 @@ fn gen_ranges(rng: &mut Rng) -> Vec<LineRange> {
     v
 }
 
+/// "any multiset of single lines and ranges": duplicates, overlaps, nesting, degenerate ranges, any order, numbers up to u32::MAX
+fn gen_ranges_multiset(rng: &mut Rng) -> Vec<LineRange> {
+    let mut v = Vec::new();
+    let base: u32 = *rng.pick(&[0u32, 0, 0, 1000, 4_294_967_200]);
+    for _ in 0..1 + rng.below(8) {
+        let a = base + 1 + rng.below(24) as u32;
+        match rng.below(5) {
+            0 | 1 => v.push(LineRange::Single(a)),
+            2 => v.push(LineRange::Range(a, a)),
+            _ => v.push(LineRange::Range(a, a + 1 + rng.below(12) as u32)),
+        }
+        if rng.chance(1, 5) {
+            let last = v[v.len() - 1].clone();
+            v.push(last);
+        }
+    }
+    v
+}
+
 fn lines_of(r: &[LineRange]) -> BTreeSet<u32> {
     let mut s = BTreeSet::new();
     for x in r {
@@ -74,7 +96,7 @@ fn canon(log: &AuthorshipLog) -> BTreeMap<String, BTreeMap<String, BTreeSet<u32>
 }
 
 /// Independent grammar check of the serialized text (written from the published standard).
-fn grammar_problem(text: &str) -> Option<String> {
+fn grammar_problem(text: &str, ascending: bool) -> Option<String> {
     let lines: Vec<&str> = text.split('\n').collect();
     let div = lines.iter().position(|l| *l == "---");
     let Some(div) = div else { return Some("no divider line".into()) };
@@ -87,7 +109,7 @@ fn grammar_problem(text: &str) -> Option<String> {
             for part in spec.split(',') {
                 let (a, b) = match part.split_once('-') { Some((a, b)) => (a, b), None => (part, part) };
                 let (Ok(a), Ok(b)) = (a.parse::<u32>(), b.parse::<u32>()) else { return Some(format!("bad range {:?}", part)) };
-                if a < 1 || b < a || a <= prev { return Some(format!("ranges not ascending: {:?}", spec)); }
+                if a < 1 || b < a || (ascending && a <= prev) { return Some(format!("ranges not ascending: {:?}", spec)); }
                 prev = b;
             }
         } else {
@@ -153,6 +175,15 @@ pub fn run(seed: u64, n: usize, extra: &[String]) -> String {
         let nfiles = *rng.pick(&[0usize, 1, 1, 2, 3, 8, 20]);
         let mut used = BTreeSet::new();
         let mut classes = BTreeSet::new();
+        let multiset = rng.chance(1, 3);
+        let odd_hashes = rng.chance(1, 4);
+        if multiset { classes.insert("multiset-ranges"); }
+        if odd_hashes { classes.insert("odd-hashes"); }
+        match rng.below(4) {
+            0 => { log.metadata.git_ai_version = None; classes.insert("no-version"); }
+            1 => { log.metadata.git_ai_version = Some(rng.pick(&["1.2.3", "", "v\"x\"", "---", "9.9.9-é"]).to_string()); }
+            _ => {}
+        }
         for _ in 0..nfiles {
             let p = gen_path(&mut rng, &allowed);
             if !used.insert(p.clone()) { continue; }
@@ -163,9 +194,10 @@ pub fn run(seed: u64, n: usize, extra: &[String]) -> String {
             let mut fa = FileAttestation::new(p);
             let mut hs = BTreeSet::new();
             for _ in 0..1 + rng.below(3) {
-                let h = rng.pick(HASHES).to_string();
+                let h = if odd_hashes && rng.chance(1, 2) { rng.pick(ODD_HASHES).to_string() } else { rng.pick(HASHES).to_string() };
                 if !hs.insert(h.clone()) { continue; }
-                fa.add_entry(AttestationEntry::new(h.clone(), gen_ranges(&mut rng)));
+                let ranges = if multiset { gen_ranges_multiset(&mut rng) } else { gen_ranges(&mut rng) };
+                fa.add_entry(AttestationEntry::new(h.clone(), ranges));
                 let texts = ["hello", "---", "src/a b.txt", "  0123456789abcdef 1-2", "\"base_commit_sha\": \"zzz\"", "multi\nline\n---\nmore", "é中🙂"];
                 let mut msgs = vec![Message::user(rng.pick(&texts).to_string(), None), Message::assistant(rng.pick(&texts).to_string(), None)];
                 if rng.chance(1, 3) {
@@ -193,7 +225,8 @@ pub fn run(seed: u64, n: usize, extra: &[String]) -> String {
             Ok(Err(_)) => { viol.push(json!({"kind": "C17/serialize-error"})); continue; }
             Ok(Ok(t)) => t,
         };
-        if let Some(p) = grammar_problem(&text) {
+        // ranges given as a sorted, disjoint list must come out ascending; for an arbitrary multiset only the entry syntax is checked
+        if let Some(p) = grammar_problem(&text, !multiset) {
             viol.push(json!({"kind": "C17/grammar", "problem": p, "paths": log.attestations.iter().map(|f| f.file_path.clone()).collect::<Vec<_>>(), "text": text.chars().take(400).collect::<String>()}));
             continue;
         }
@@ -208,9 +241,43 @@ pub fn run(seed: u64, n: usize, extra: &[String]) -> String {
                              "before": format!("{:?}", canon(&log)).chars().take(300).collect::<String>(), "after": format!("{:?}", canon(&back)).chars().take(300).collect::<String>()}));
             continue;
         }
-        if back.metadata.base_commit_sha != log.metadata.base_commit_sha || back.metadata.prompts != log.metadata.prompts || back.metadata.schema_version != log.metadata.schema_version {
+        if back.metadata.base_commit_sha != log.metadata.base_commit_sha || back.metadata.prompts != log.metadata.prompts || back.metadata.schema_version != log.metadata.schema_version
+            || back.metadata.git_ai_version != log.metadata.git_ai_version {
             viol.push(json!({"kind": "C17/roundtrip-metadata-differs"}));
             continue;
+        }
+        // mutated valid notes for the parser: never panics; whatever it accepts has a divider line
+        for _ in 0..3 {
+            let mut chars: Vec<char> = text.chars().collect();
+            if chars.is_empty() { break; }
+            for _ in 0..1 + rng.below(3) {
+                let i = rng.below(chars.len());
+                match rng.below(7) {
+                    0 => { chars.remove(i); }
+                    1 => { let c = chars[i]; chars.insert(i, c); }
+                    2 => { chars.insert(i, *rng.pick(&['\n', ' ', '"', '-', ',', '{', '}', '\r', '\t', 'é', '9'])); }
+                    3 => { chars.truncate(i); }
+                    4 => { chars[i] = *rng.pick(&['\n', ' ', '"', '-', ',', ':', '0']); }
+                    5 => { let j = rng.below(chars.len()); chars.swap(i, j); }
+                    _ => { let tail: Vec<char> = chars[i..].to_vec(); chars.extend(tail); }
+                }
+                if chars.is_empty() { break; }
+            }
+            let m: String = chars.into_iter().collect();
+            let has_div = m.lines().any(|l| l == "---");
+            let m2 = m.clone();
+            *counters.entry("mutated_notes").or_insert(0) += 1;
+            match guarded(move || AuthorshipLog::deserialize_from_string(&m2).is_ok()) {
+                Err(p) => { viol.push(json!({"kind": "C17/panic-parse", "panic": p, "text": m.chars().take(400).collect::<String>()})); }
+                Ok(ok) => {
+                    if ok { *counters.entry("mutated_notes_accepted").or_insert(0) += 1; }
+                    if ok && !has_div { viol.push(json!({"kind": "C17/accepted-text-without-divider", "text": m.chars().take(400).collect::<String>()})); }
+                }
+            }
+            let m3 = m.clone();
+            if let Err(p) = guarded(move || { let _ = try_remap_base_commit_sha_field(&m3, "abc"); let _ = remap_note_content_for_target_commit(&m3, "abc"); }) {
+                viol.push(json!({"kind": "C17/panic-remap", "panic": p, "text": m.chars().take(400).collect::<String>()}));
+            }
         }
         // base-commit remap: the result parses to the same log with the new base
         let target = format!("{:040x}", rng.next() as u128);
